@@ -349,8 +349,8 @@ def rule_cone_selection(ctx, r):
                        if isinstance(c.func, (ast.Name, ast.Attribute)))
     by_name = ".name" in txt
     all_patterns = "self.patterns" in txt
-    r.check(uses_fnmatch and by_name and all_patterns, f"{nf.module.relpath}::{nf.qual}", "fnmatch of every pattern on target names, mapped back by name",
-            "NameFilter.apply does not select by fnmatch of every pattern against the target names", nf.where)
+    from .shared import rule_name_selection
+    rule_name_selection(ctx, r, "the endpoints of `gwf run PATTERN...`")
     # submit_workflow hands the endpoints to schedule
     from ..inline import inlined
     sw = inlined(ctx, idx.func("gwf.scheduling:submit_workflow"))
@@ -377,6 +377,12 @@ def rule_id_lookup(ctx, r):
             "prerequisites [A, B] -> [id tracked for A, id tracked for B] handed to ops.submit_target(target, ids)",
             f"with prerequisites [A, B] tracked as id_A, id_B the scheduler is given {captured.get('ids')} for target {captured.get('target')}: the prerequisite ids must be "
             "exactly the ids tracked under the prerequisites' names, all of them, in order", m.where)
+    # ids are opaque values of the backend: the local pool numbers its tasks 0, 1, 2, ... (0 is falsy)
+    res0, err0, _m = eval_submit(ctx, 0, 1)
+    ids0 = res0[0].get("ids") if res0 else err0
+    r.check(ids0 == [0, 1], con + "::opaque-ids", "job ids are passed on whatever their value (the local pool's first task has id 0)",
+            f"with prerequisites tracked as job ids 0 and 1 (the local pool's first two tasks) the scheduler is given {ids0}: an id is dropped because of its value, "
+            "so the dependent is started without waiting for that prerequisite", m.where)
     r.check(tracked.get("T") == tok("NEW") and tracked.get("A") == tok("ID_A") and tracked.get("B") == tok("ID_B"), con + "::record",
             "the id returned by the scheduler is recorded under the target's name (other entries untouched)",
             f"after the submission the tracked table is {tracked}: the new id must replace the target's old entry and nothing else", m.where)
@@ -397,3 +403,6 @@ def run(ctx):
     rule_cone_selection(ctx, r4)
     r5 = ctx.rule("R5", "prerequisite targets are translated to the tracked job ids by name, all of them", min_instances=2)
     rule_id_lookup(ctx, r5)
+    r6 = ctx.rule("R6", "the 'stale' column of the table is the make-style decision (composition with C01: missing output, newest input vs oldest output)", min_instances=3)
+    from .shared import import_rules
+    import_rules(ctx, r6, "C01", only={"R1", "R2", "R3"})
